@@ -804,7 +804,14 @@ impl<'a> crate::ranger::Store<SignedEntry> for StoreInstance<'a> {
             // insert into latest table
             let key = (&e.id().namespace().to_bytes(), &e.id().author().to_bytes());
             let value = (e.timestamp(), e.id().key());
-            tables.latest_per_author.insert(key, value)?;
+            // An entry that arrives late may be older than the author's current head.
+            let current = tables
+                .latest_per_author
+                .get(key)?
+                .map(|current| current.value().0);
+            if current.is_none_or(|current| e.timestamp() >= current) {
+                tables.latest_per_author.insert(key, value)?;
+            }
             Ok(())
         })
     }
